@@ -12,6 +12,42 @@ struct Result {
     long kind = K_NONE, val = 0;
 };
 
+// ---- watchdog: a case that makes no progress for several seconds (lost wake-up, destructor that never returns,
+// consumer that is never resumed) ends the process; the partial trace is the evidence (vlib reports CRASH exit3) ----
+struct Watchdog {
+    std::atomic<long> beat{0};
+    std::atomic<bool> stop{false};
+    std::thread th;
+    void start() {
+        th = std::thread([this] {
+            long last = -1;
+            int idle = 0;
+            while (!stop.load()) {
+                std::this_thread::sleep_for(std::chrono::milliseconds(250));
+                long b = beat.load();
+                if (b == last) {
+                    if (++idle >= 24) {   // ~6 s without a finished op
+                        std::fflush(stdout);
+                        std::_Exit(3);
+                    }
+                } else {
+                    idle = 0;
+                    last = b;
+                }
+            }
+        });
+    }
+    void tick() { beat.fetch_add(1); }
+    void finish() {
+        stop.store(true);
+        th.join();
+    }
+    static Watchdog &inst() {
+        static Watchdog w;
+        return w;
+    }
+};
+
 // ---- consumer thread: synchronous accesses run here so that a blocking wait can be observed ----
 struct Worker {
     std::mutex mx;
